@@ -41,6 +41,9 @@ type Scenario struct {
 	MaxSteps int
 	New      func() *Instance
 	MaxExecs int64 // cap on executions (0 = none); hitting it makes the result non-exhaustive
+	// AfterExec, when set, is consulted after every execution that passed Check (e.g. new
+	// race-detector reports attributed to this schedule).
+	AfterExec func(e *sched.Exec) (sig, msg string, detail any)
 }
 
 type Violation struct {
@@ -94,6 +97,11 @@ func RunOnce(sc *Scenario, prefix []int, logOps bool) (*sched.Exec, *Instance, *
 	default:
 		if in.Check != nil {
 			if sig, msg, detail := in.Check(e); sig != "" {
+				v = mk(sig, msg, detail)
+			}
+		}
+		if v == nil && sc.AfterExec != nil {
+			if sig, msg, detail := sc.AfterExec(e); sig != "" {
 				v = mk(sig, msg, detail)
 			}
 		}
